@@ -300,7 +300,8 @@ func (p Proxy) ServeHTTP(w http.ResponseWriter, r *http.Request) (int, error) {
 			return 0, nil
 		}
 
-		if backendErr == httpserver.ErrMaxBytesExceeded {
+		// the transport may have wrapped the error of the request body's reader
+		if errors.Is(backendErr, httpserver.ErrMaxBytesExceeded) {
 			return http.StatusRequestEntityTooLarge, backendErr
 		}
 
